@@ -115,6 +115,10 @@ IZERO = const(0, 'I')
 IONE = const(1, 'I')
 
 
+def _uid(t):
+    return t.uid
+
+
 def var(name, sort='R'):
     return T('var', (name,), sort)
 
@@ -181,6 +185,7 @@ def add(*xs):
     negs = {}
     for y in flat:
         out.append(y)
+    out.sort(key=_uid)              # commutative: canonical argument order
     if c != 0 or not out:
         out.append(const(c, sort) if sort == 'R' else const(int(c), 'I'))
     if len(out) == 1:
@@ -196,6 +201,15 @@ def neg(a):
         return a.args[0]
     if a.op == 'add':
         return add(*[neg(x) for x in a.args])
+    if a.op == 'mul' and any(f.op == 'add' for f in a.args):
+        fl = list(a.args)
+        for k_, f in enumerate(fl):
+            if f.op == 'add':
+                fl[k_] = neg(f)
+                break
+        return mul(*fl)
+    if a.op == 'div' and a.args[0].op == 'neg':
+        return div(a.args[0].args[0], a.args[1])
     return T('neg', (a,), a.sort)
 
 
@@ -231,9 +245,17 @@ def mul(*xs):
     c *= sign
     if c == 0:
         return const(0, sort)
+    if c < 0:
+        # canonical sign: a negative coefficient is pushed into the first sum factor, -a*(x - y) == a*(y - x)
+        for k_, y in enumerate(flat):
+            if y.op == 'add':
+                flat[k_] = neg(y)
+                c = -c
+                break
     out = []
     if c != 1:
         if c == -1 and flat:
+            flat.sort(key=_uid)
             inner = flat[0] if len(flat) == 1 else T('mul', tuple(flat), sort)
             return T('neg', (inner,), sort)
         out.append(const(c, sort) if sort == 'R' else const(int(c), 'I'))
@@ -248,6 +270,7 @@ def mul(*xs):
             cnt[y] += 1
         if any(n > 1 for n in cnt.values()):
             flat = [y if cnt[y] == 1 else powt(y, const(cnt[y], 'I')) for y in order]
+    flat.sort(key=_uid)
     out.extend(flat)
     if not out:
         return const(1, sort)
@@ -260,8 +283,8 @@ def div(a, b):
     a, b = toreal(as_term(a)), toreal(as_term(b))
     if b.op == 'const' and b.args[0] != 0:
         return mul(a, const(1 / b.args[0], 'R'))
-    if a.op == 'const' and a.args[0] == 0 and False:
-        return a
+    if a.op == 'neg':
+        return neg(div(a.args[0], b))
     return T('div', (a, b), 'R')
 
 
@@ -294,6 +317,8 @@ def powt(a, e):
 
 def app(fname, *args, sort='R'):
     args = tuple(as_term(a) for a in args)
+    if fname in ('ostat_bot', 'ostat_top') and len(args) == 2 and args[1].op == 'bag' and args[1].args[0] not in free_vars(args[1].args[3]):
+        return args[1].args[3]      # order statistics of a constant multiset
     if fname == 'stopgrad':
         a0 = args[0]
         if a0.op == 'const' or (a0.op == 'app' and a0.args[0] == 'stopgrad'):
@@ -538,6 +563,16 @@ def big(op, bv, lo, hi, body):
         return subst(body, {bv: lo})
     if op == 'sum' and body.op == 'const' and body.args[0] == 0:
         return body
+    if op == 'sum' and body.op == 'neg':
+        return neg(big('sum', bv, lo, hi, body.args[0]))          # linearity
+    if op == 'sum' and body.op == 'mul' and body.args[0].op == 'const':
+        return mul(body.args[0], big('sum', bv, lo, hi, mul(*body.args[1:])))
+    if op == 'sum' and bv not in free_vars(body):
+        # a constant summand: (number of terms) * body
+        cnt = tmax(sub(hi, lo), IZERO)
+        return mul(toreal(cnt), body) if body.sort == 'R' else mul(cnt, body)
+    if op in ('bmax', 'bmin') and bv not in free_vars(body):
+        return body          # (range non-empty: a separate obligation)
     # canonical bound-variable name: depends on the body so alpha-equivalent terms coincide
     canon = var('k#%d' % _depth(body), 'I')
     if canon is not bv:
